@@ -109,6 +109,23 @@ func streamFn(seed uint64, idx int) caseT {
 		e := strings.Replace(outer, "%s", inner, -1)
 		return caseT{lines: []string{"S " + hexField(e) + " " + canonOf(map[string]interface{}{"groups": groups})}}
 	}
+	if (idx/len(fnSigs))%7 == 6 {
+		// string arguments written as raw strings that are NOT valid UTF-8 (only a raw string literal can bring such
+		// a string in): lone continuation bytes, truncated sequences, overlong forms, surrogates
+		bad := []string{"'ab\xff'", "'\xff'", "'\xc3'", "'a\xe4\xb8'", "'\xed\xa0\x80'", "'\xc0\xaf'", "'\xf0\x9f\x98'", "'\x80\x80\x80x'", "'é\xffé'", "'\xfe\xff\xfd'"}
+		for i := 0; i < n; i++ {
+			want := sig.params[len(sig.params)-1]
+			if i < len(sig.params) {
+				want = sig.params[i]
+			}
+			switch want {
+			case "string", "arrstr", "sao", "any":
+				args[i] = bad[g.r.intn(len(bad))]
+			case "astr", "anumstr":
+				args[i] = "[" + bad[g.r.intn(len(bad))] + ", 'a', " + bad[g.r.intn(len(bad))] + "]"
+			}
+		}
+	}
 	doc := interface{}(nil)
 	// large arrays with ties (stability of sort_by, first-extremal of max_by/min_by)
 	if (sig.name == "sort_by" || sig.name == "max_by" || sig.name == "min_by" || sig.name == "sort") && g.r.chance(30) {
@@ -136,7 +153,8 @@ func streamFn(seed uint64, idx int) caseT {
 	}
 	lines := []string{"S " + hexField(e) + " " + canonOf(doc)}
 	if g.r.chance(20) { // nested in an arbitrary expression
-		wrap := g.r.pick([]string{"[%s, `1`]", "{k: %s}", "%s | @", "(%s)", "not_null(%s)", "to_array(%s)[0]", "[`1`][*].%s | [0]", "%s == %s"})
+		wrap := g.r.pick([]string{"[%s, `1`]", "{k: %s}", "%s | @", "(%s)", "not_null(%s)", "to_array(%s)[0]", "[`1`][*].%s | [0]", "%s == %s",
+			"`null`.%s", "nosuchfield.%s", "nosuchfield | %s", "`{}`.k.%s", "nosuchfield.k[0].%s", "[nosuchfield.%s, `null` | %s]", "`null` | @.%s"})
 		lines = append(lines, "S "+hexField(strings.Replace(wrap, "%s", e, -1))+" "+canonOf(doc))
 	}
 	return caseT{lines: lines}
@@ -151,7 +169,12 @@ var matrixNames = func() []string {
 	for _, s := range fnSigs {
 		out = append(out, s.name)
 	}
-	return append(out, "nosuch", "lenght", "Abs")
+	out = append(out, "nosuch", "lenght", "Abs")
+	// unknown names of every length up to 40 bytes (an error message that measures, pads or compares names)
+	for n := 1; n <= 40; n++ {
+		out = append(out, strings.Repeat("sort_by_descending_order_of_everything_", 2)[:n])
+	}
+	return out
 }()
 
 func matrixCount(maxArgs int) int {
@@ -458,7 +481,8 @@ func streamPipe(seed uint64, idx int) caseT {
 	return caseT{lines: []string{"P " + hexField(render(a, g.r.intn(3), g.r)) + " " + hexField(render(bt, g.r.intn(3), g.r)) + " " + canonOf(doc)}}
 }
 
-var rootCtx = []string{"%s", "[%s, @]", "{k: %s}", "%s || a", "a && %s", "!%s", "%s == a", "a != %s", "%s | @", "(%s).a", "%s[0]", "%s[*]", "%s[]", "%s.*", "%s[?@]", "not_null(%s, a)", "to_array(%s)", "type(%s)",
+var rootCtx = []string{"`1` || length(%s)", "`null` && abs(%s)", "`[]` && keys(%s)", "'x' || nosuch(%s)", "`[1]`[?`false`].abs(%s)", "`false` && max_by(%s, &@)", "`0` || sort(%s)", "[`1` || abs(%s), %s]",
+	"%s", "[%s, @]", "{k: %s}", "%s || a", "a && %s", "!%s", "%s == a", "a != %s", "%s | @", "(%s).a", "%s[0]", "%s[*]", "%s[]", "%s.*", "%s[?@]", "not_null(%s, a)", "to_array(%s)", "type(%s)",
 	"[to_string(%s), %s]", "merge(`{}`, %s)", "%s[1:]", "sort_by(%s, &a)", "[%s, sort_by(%s, &k)]", "map(&@, %s)", "length(%s)", "contains(%s, a)", "%s < `3`", "reverse(%s)", "[%s][0]"}
 
 // subst (C15): replacing a sub-expression evaluated against the root by the
@@ -517,7 +541,7 @@ func streamJSONish(seed uint64, idx int) caseT {
 		}
 		return caseT{lines: []string{"S " + hexField(e) + " " + canonOf(map[string]interface{}{"a": []interface{}{"3", s}})}}
 	}
-	empties := []string{"avg(`[]`)", "sum(`[]`)", "max(`[]`)", "min(`[]`)", "sort(`[]`)", "sort_by(`[]`, &a)", "max_by(`[]`, &a)", "min_by(`[]`, &a)", "map(&a, `[]`)", "reverse(`[]`)", "reverse('')", "join('', `[]`)",
+	empties := []string{"`[1,\n2]`", "`{\n  \"a\": 1,\n  \"b\": [\n    1\n  ]\n}`", "` 1 `", "`\t[ ]\r\n`", "`\"a\\nb\"`", "`[1,\n2]` | [1]", "[?@ == `{\n\"a\":\n1}`]", "avg(`[]`)", "sum(`[]`)", "max(`[]`)", "min(`[]`)", "sort(`[]`)", "sort_by(`[]`, &a)", "max_by(`[]`, &a)", "min_by(`[]`, &a)", "map(&a, `[]`)", "reverse(`[]`)", "reverse('')", "join('', `[]`)",
 		"keys(`{}`)", "values(`{}`)", "merge(`{}`)", "merge(`{}`, `{}`)", "to_array(`[]`)", "to_array(`null`)", "not_null(`null`)", "`[]`[*]", "`[]`[]", "`[]`[?@]", "`[]`[:]", "`{}`.*", "`{}`.{a: @}", "[a, b][?@]",
 		"`[[]]`[]", "empty[*].a", "empty[].a", "empty[::2]", "[]", "[*]", "[?a]", "{a: empty}", "[empty]", "to_array(empty)", "[to_array(a), map(&b, c)]", "to_array(a)", "avg(empty)", "empty | avg(@)"}
 	e := g.r.pick(empties)
@@ -568,7 +592,9 @@ func streamCLI(seed uint64, idx int) caseT {
 		expr = "@"
 	}
 	if g.r.chance(20) {
-		expr = g.r.pick([]string{"a.", "[0", "abs(a)", "nosuchfn(a)", "length(a, a)", "`{`", "a ||", "'x", "\"a", "sort_by(@, &a)", "avg(`[]`)", "to_number('inf')", "a[::0]", "@", "a"})
+		expr = g.r.pick([]string{"a.", "[0", "abs(a)", "nosuchfn(a)", "length(a, a)", "`{`", "a ||", "'x", "\"a", "sort_by(@, &a)", "avg(`[]`)", "to_number('inf')", "a[::0]", "@", "a",
+			// calls that are never evaluated: still a valid expression, the value is printed
+			"`1` || nosuchfn(@)", "`null` && length(@, @)", "`[]`[*].nosuchfn(@)", "`[]`[?nosuchfn(@)]", "'x' || abs()", "[`1` || abs('s'), `2`]", "`{}`.*.nosuchfn(@)"})
 	}
 	input := jsonText(doc)
 	switch g.r.intn(12) {
@@ -621,6 +647,14 @@ func streamFnSeq(seed uint64, idx int) caseT {
 		}
 	}
 	call := sig.name + "(@" + second + ")"
+	if sig.varia && g.r.chance(60) {
+		// variadic functions: different argument counts in one Search, the longer call first or last
+		k := 1 + g.r.intn(4)
+		long := sig.name + "(@" + strings.Repeat(", @", k) + ")"
+		short := sig.name + "(@)"
+		e := g.r.pick([]string{"[*].[" + long + ", " + short + "]", "[*].[" + short + ", " + long + ", " + short + "]", "[" + strings.Replace(long, "@", "@[0]", -1) + ", " + strings.Replace(short, "@", "@[1]", -1) + ", " + strings.Replace(call, "@", "@[0]", 1) + "]"})
+		return caseT{lines: []string{"S " + hexField(e) + " " + canonOf(arr)}}
+	}
 	if len(sig.params) > 0 && sig.params[0] == "expref" {
 		call = sig.name + "(&a, @)"
 	}
